@@ -439,6 +439,11 @@ fn gen_valid(r: &mut Rng) -> (Document, Vec<ObjectId>) {
 fn chaos_value(r: &mut Rng, refs: &[ObjectId], depth: usize, key: &str) -> Object {
     let link = matches!(key, "Kids" | "Parent" | "Contents" | "Resources" | "First" | "Next" | "Annots" | "Outlines" | "Dests" | "Names" | "Root" | "Pages" | "A" | "Font" | "XObject" | "ToUnicode" | "Encrypt" | "Dest" | "D" | "Title");
     let k = if link && r.chance(1, 2) { if r.chance(3, 4) { 9 } else { 6 } } else { r.below(11) };
+    chaos_value_kind(r, refs, depth, key, k)
+}
+/// the value kinds of the typed chaos: 0 null, 1 bool, 2 int, 3 real, 4 name, 5 string, 6 array, 7 dictionary, 8 stream, 9.. reference
+const N_KINDS: u64 = 11;
+fn chaos_value_kind(r: &mut Rng, refs: &[ObjectId], depth: usize, key: &str, k: u64) -> Object {
     match k {
         0 => Object::Null,
         1 => Object::Boolean(r.chance(1, 2)),
@@ -722,7 +727,7 @@ pub fn run(c: &mut Ctx) {
     c.rule = "documents = well-formed generator output (page tree, Contents direct/array/chained, Resources direct/by reference/inherited, \
 fonts with every Encoding branch, image XObjects, Annots, outlines with Dest/A/named destinations, name trees, Encrypt/CF) with 0-12 typed-chaos \
 mutations (a key the queries read re-bound to a value of a random kind or to a reference, possibly forming cycles); every query runs on the real \
-Document in the isolated worker on 3-5 target ids; non-trivial = every case (distinct by request text); every walker runs on every document (cyclic Next / First / Kids included: seen-sets); stream `refchains`: for each of 34 keys a query looks up x 24 chain shapes (acyclic 1..5 and 126..129 hops, dangling, self loop, ring 2..4, rho-shape tail 1..5 + ring 1..4, chains ending in an array / name / array of references) the value of the key — or an item of its array — is put behind a chain of bare reference objects; a query that does not return in the isolated worker is an oracle failure hang:<query> / abort:<query> with the document as replay".into();
+Document in the isolated worker on 3-5 target ids; non-trivial = every case (distinct by request text); every walker runs on every document (cyclic Next / First / Kids included: seen-sets); stream `refchains`: for each of 34 keys a query looks up x 24 chain shapes (acyclic 1..5 and 126..129 hops, dangling, self loop, ring 2..4, rho-shape tail 1..5 + ring 1..4, chains ending in an array / name / array of references) the value of the key — or an item of its array — is put behind a chain of bare reference objects; a query that does not return in the isolated worker is an oracle failure hang:<query> / abort:<query> with the document as replay; stream `systematic`: every key x every value kind (null, bool, int, real, name, string, array, dictionary, stream, reference) x {trailer, a dictionary that has the key, any dictionary} once per run".into();
     let _ = guard(|| ());
     // ---------------- well-formed documents
     let mut batch = vec![]; let mut docs = vec![];
@@ -780,6 +785,7 @@ Document in the isolated worker on 3-5 target ids; non-trivial = every case (dis
     }
     run_batch(c, batch, &docs);
     refchain_stream(c);
+    systematic_stream(c);
     known_streams(c);
 }
 
@@ -865,6 +871,44 @@ fn chainify(r: &mut Rng, doc: &mut Document, key: &str, shape: Shape) -> Option<
     let o = doc.objects.get_mut(&id).unwrap();
     with_nth_dict(o, 0, &mut 0, idx, &mut |d| { if let Some(v) = new.take() { d.set(key, v); } });
     Some(Some(id))
+}
+
+
+/// every key the queries read x every value kind x {trailer, a dictionary that has the key, any dictionary}: one deterministic
+/// re-binding per case, so that a rare combination (e.g. a DIRECT dictionary under /Encrypt in the trailer) is in every run
+fn systematic_stream(c: &mut Ctx) {
+    let mut batch = vec![]; let mut docs = vec![];
+    let combos = KEYS.len() as u64 * N_KINDS * 3;
+    for i in 0..c.n(combos, combos * 4) {
+        let Some(mut r) = c.case("systematic", i) else { continue };
+        let key = KEYS[(i % KEYS.len() as u64) as usize];
+        let kind = (i / KEYS.len() as u64) % N_KINDS;
+        let loc = (i / (KEYS.len() as u64 * N_KINDS)) % 3;
+        let (mut doc, leaves) = gen_valid(&mut r);
+        let ids: Vec<ObjectId> = doc.objects.keys().cloned().collect();
+        let v = chaos_value_kind(&mut r, &ids, 0, key, kind);
+        c.count(&format!("systematic.kind{}", kind)); c.count(&format!("systematic.loc{}", loc));
+        let mut owner = None;
+        if loc == 0 { doc.trailer.set(key, v); }
+        else {
+            let mut slots: Vec<(ObjectId, usize)> = vec![];
+            for (id, o) in doc.objects.iter() { let mut fl = vec![]; dict_flags(o, 0, key.as_bytes(), &mut fl); for (k, f) in fl.iter().enumerate() { if *f || loc == 2 { slots.push((*id, k)); } } }
+            if slots.is_empty() { for (id, o) in doc.objects.iter() { let mut fl = vec![]; dict_flags(o, 0, key.as_bytes(), &mut fl); for k in 0..fl.len() { slots.push((*id, k)); } } }
+            if let Some((id, idx)) = if slots.is_empty() { None } else { Some(*r.pick(&slots)) } {
+                let mut v = Some(v);
+                with_nth_dict(doc.objects.get_mut(&id).unwrap(), 0, &mut 0, idx, &mut |d| { if let Some(v) = v.take() { d.set(key, v); } });
+                owner = Some(id);
+            }
+        }
+        if i >= combos && r.chance(1, 2) { let n = 1 + r.usize(3); chaos(&mut r, &mut doc, n, c); }
+        let mut targets = pick_targets(&mut r, &doc, &leaves);
+        if let Some(o) = owner { targets.insert(0, o); targets.truncate(5); targets.dedup(); }
+        let hz = analyse(&doc, &targets);
+        let req = request("all", &targets, &doc);
+        c.nontrivial(&req);
+        batch.push(Pending { case_id: c.cur, stream: "systematic".into(), req, doc_targets: targets, hazard: hz }); docs.push(doc);
+    }
+    run_batch(c, batch, &docs);
 }
 
 fn refchain_stream(c: &mut Ctx) {
